@@ -74,6 +74,7 @@ if TYPE_CHECKING:  # pragma: no cover
 T = TypeVar("T")
 
 CONSTANT_ONLY_DTYPES = (np.integer, np.bool_)
+_PY_SCALARS = (bool, int, float)
 
 
 def _resolve_constant(*others: Any, constant: Optional[bool]) -> Optional[bool]:
@@ -1088,6 +1089,25 @@ class Tensor:
                 return out
 
         _uniques_bases_then_arrs = ()
+
+        if len(input_vars) > 1 and any(type(var) in _PY_SCALARS for var in input_vars):
+            # NumPy treats Python scalars as "weak" during type promotion
+            # (e.g. `float32_array * 2.0` is float32); casting them to arrays of
+            # their default dtypes would lose this, so cast them to the dtype that
+            # NumPy resolves for the full set of operands
+            input_vars = tuple(
+                var
+                if isinstance(var, Tensor) or type(var) in _PY_SCALARS
+                else np.asarray(var)
+                for var in input_vars
+            )
+            _dtype = np.result_type(
+                *(var.data if isinstance(var, Tensor) else var for var in input_vars)
+            )
+            input_vars = tuple(
+                np.asarray(var, dtype=_dtype) if type(var) in _PY_SCALARS else var
+                for var in input_vars
+            )
 
         tensor_vars = tuple(
             cls(var, constant=True, copy=False) if not isinstance(var, Tensor) else var
